@@ -20,6 +20,9 @@ rule("C13.g", "periodic merge: a group of variables is joined once, although the
               "rows (transport: one per node) - accumulating updates are protected by a visited set", floor=1)
 rule("C13.h", "periodic merge: a variable that has been merged away is not chosen as leading variable of a later group (and a leading "
               "variable is not merged away later): the loop consults the set of removed variables", floor=1, props=["C13", "C07"])
+rule("C13.j", "periodic merge: the position of a step within its period is counted from the period boundary - for a grid that starts inside a "
+              "period (calendar-anchored periodicity such as 'W') the counter of the first, partial period starts at the position of the first "
+              "time point in that period, not at 0", floor=1)
 rule("C13.f", "a scipy sparse matrix is subscripted only in a format that supports it (lil / csr / csc; item assignment: lil)", floor=20,
      props=["C13", "C07"])
 rule("C15.d", "inside the fix-window branch only the bounds l and u are written", floor=1)
@@ -93,7 +96,7 @@ class _Fmt(Domain):
         return s
 
 
-@analysis("sparsefmt", ["C13.d", "C13.f", "C13.g", "C13.h", "C15.d", "C04.c"])
+@analysis("sparsefmt", ["C13.d", "C13.f", "C13.g", "C13.h", "C13.j", "C15.d", "C04.c"])
 def run(ctx):
     p = ctx.p
     # ================================================================= C13.f
@@ -270,6 +273,28 @@ def run(ctx):
                key="leading variables are not among the removed ones")
     else:
         ctx.ob("C13.h", mp, "leading variables are not among the removed ones", None, "leading variable / removed set not recognised")
+
+    # ================================================================= C13.j
+    resets = []
+    for iff in [s0 for s0 in au.walk_stmts(mp.body) if isinstance(s0, ast.If) and any(isinstance(a, ast.For) for a in ctx.p.ancestors(s0))]:
+        if not any(isinstance(c, ast.Compare) for c in au.walk_local(iff.test)):
+            continue
+        for s1 in iff.body:
+            if isinstance(s1, ast.Assign) and isinstance(s1.targets[0], ast.Name) and au.const_num(s1.value) == 0:
+                # the boundary sequence the reset belongs to
+                seqs = {x.value.id for x in au.walk_local(iff.test) if isinstance(x, ast.Subscript) and isinstance(x.value, ast.Name)}
+                resets.append((s1.targets[0].id, seqs, s1))
+    if not resets:
+        ctx.ob("C13.j", mp, "position counter of the period", None, "no counter that is reset at a period boundary found")
+    for cname, seqs, st in resets:
+        offs = [s2 for s2 in au.walk_stmts(mp.body) if isinstance(s2, ast.Assign) and any(isinstance(t0, ast.Name) and t0.id == cname for t0 in s2.targets)
+                and au.const_num(s2.value) is None and (seqs & au.names_in(s2.value)) and not (cname in au.names_in(s2.value))]
+        ctx.ob("C13.j", mp, "counter %s starts at the position of the first time point in its period" % cname, bool(offs),
+               "%s counts the position of a step within its period and is only ever set to 0 (at a boundary) or incremented: for a grid "
+               "that starts inside a period its first, partial period is counted from 0 as well, so step k of the grid is tied to step k of "
+               "every later period instead of the step at the same calendar position - grid starting on a Friday with periodicity 'W': "
+               "Friday is forced equal to the Sundays, Saturday to the Mondays" % cname, node=st,
+               key="position counter starts at the position of the first time point in its period")
 
     # ================================================================= C15.d
     pf = p.fn_opt("Portfolio.setup_optim_problem")
